@@ -1306,8 +1306,14 @@ def parse_txt(txt, xopts=None, **kwargs):
     # from inside <ref> or <poem> re-enters here without ever passing the
     # expander's recursion guard
     depth = (xopts.parse_depth or 0) + 1
-    if depth > 20:
-        return []
+    if depth == 1 or xopts.parse_nested is None:
+        xopts.parse_nested = [0]  # shared with the copies made of xopts
+    if depth >= 3:
+        # not only deep but also wide: two such tags per template double the
+        # work with every level, so the nested re-entries are counted as well
+        xopts.parse_nested[0] += 1
+        if depth > 20 or xopts.parse_nested[0] > 200:
+            return []
     xopts.parse_depth = depth
     try:
         return _parse_tokens(txt, xopts, uniquifier)
